@@ -10,8 +10,8 @@
    successful bind: column by column, the header names the target's name (or the target's is blank), the target's
    Infer accepts the type, its Type() afterwards does not conflict, and the bytes directly behind that header decode
    into it. *)
-From CH Require Import model.Columns model.Block model.TypeStr model.Results.
-From CH Require Import proofs.ColumnsProofs proofs.BlockProofs proofs.TypeStrProofs proofs.ResultsProofs.
+From CH Require Import model.Columns model.Block model.TypeStr model.DecPart model.Results.
+From CH Require Import proofs.ColumnsProofs proofs.BlockProofs proofs.TypeStrProofs proofs.ResultsProofs proofs.ResultsProofs2.
 Open Scope N_scope.
 Open Scope list_scope.
 
@@ -82,11 +82,16 @@ Proof. exact bind_result_fail. Qed.
 Print Assumptions bind_mismatch_error.
 
 (* no target ever receives another column's bytes: the failing target's contents are what they were, or an empty
-   (reset or newly created) column *)
+   (reset or newly created) column, or - after a DecodeState / DecodeColumn error - the half-decoded column of
+   model/DecPart.v: what the decoder of the target's own type stores before it gives up when it is run on the bytes [s1]
+   directly behind the target's OWN column header (restated by the C18x extension, which models that residue; before it
+   the model held an empty column there and the comparison with the implementation skipped it) *)
 Theorem failing_target_never_foreign_data : forall zone tl b v nrows t s t' k e,
   bind_one zone tl b v nrows t s = (t', SFail k e) ->
   tcol_data (rt_col t') = tcol_data (rt_col t) \/
-  exists ty', tcol_ty (rt_col t') = Some ty' /\ tcol_data (rt_col t') = Some (empty ty').
+  (exists ty', tcol_ty (rt_col t') = Some ty' /\ tcol_data (rt_col t') = Some (empty ty')) \/
+  (exists ty' name tstr s1, read_header v s = inl (name, tstr, s1) /\ k = FDecode /\
+     tcol_ty (rt_col t') = Some ty' /\ tcol_data (rt_col t') = Some (body_part b ty' nrows s1)).
 Proof. exact failing_target_contents. Qed.
 Print Assumptions failing_target_never_foreign_data.
 
@@ -165,4 +170,182 @@ Example c18_nonvacuous :
     Some (BFail 0 FType EInvalid, [("a", "Int16", Some (DEnum [s2b "old"] [])); ("b", "DateTime64", Some (DFix [9]))]) /\
   ex_view (ex_run "a" (TFix (s2b "Int8") 1)) =
     Some (BOk [], [("a", "Int8", Some (DFix [2; 1])); ("b", "DateTime64(3, 'UTC')", Some (DFix [5; 7]))]).
+Proof. vm_compute. repeat split. Qed.
+
+
+(* ======================================================================================================================
+   C18x - adoption is independent of nesting; the state of a failing target.
+
+   Which wrappers hand Infer on (read from /repo/proto, mirrored by [infer_st] / [inferable_ty]): ColArr, ColNullable and
+   ColLowCardinality to their element with Elem() (the last two since the repair made for this extension: they had no Infer
+   method and a DateTime64 / Enum below them silently kept its old precision / definitions); ColMap to keys and values with
+   the two top-level arguments of Elem() (splitTypeArgs, since the second repair: the string used to be cut at its first
+   comma); ColTuple and ColNamed hand the WHOLE string on (not repaired: a tuple with an adopting member rejects its own
+   type); ColAuto hands a compatible type to the column it holds.
+
+   [skel t] (proofs/ResultsProofs2.v) is the static shape of a target: the type tree with everything Infer can replace
+   erased - zone, precision and scale of the DateTime / DateTime64 / Interval leaves and name, width and definitions of
+   the Enum leaves; columns that are not Inferable are kept verbatim. *)
+
+(* Array, Nullable and LowCardinality forward Infer to their element with the element's own type string *)
+Theorem infer_forwarded_by_wrappers : forall zone tl k d s,
+  infer_st zone tl (wrap_ty k d) s =
+  if inferable_ty d then let '(d', o) := infer_st zone tl d (elem s) in (wrap_ty k d', o) else (wrap_ty k d, IOk).
+Proof. exact infer_st_wrap. Qed.
+Print Assumptions infer_forwarded_by_wrappers.
+
+(* Map forwards to keys, then values, with the two top-level arguments of its element string *)
+Theorem infer_forwarded_by_map : forall zone tl k v s,
+  infer_st zone tl (TMap k v) s =
+  match split_type_args (elem s) with
+  | [kt; vt] =>
+    let '(k', ok) := opt_infer zone tl k (trim_space kt) in
+    match ok with
+    | IOk => let '(v', ov) := opt_infer zone tl v (trim_space vt) in (TMap k' v', ov)
+    | _ => (TMap k' v, ok)
+    end
+  | _ => (TMap k v, IErr)
+  end.
+Proof. exact infer_st_map. Qed.
+Print Assumptions infer_forwarded_by_map.
+
+(* Infer never changes the shape, whether it succeeds or fails half way *)
+Theorem infer_keeps_shape : forall zone tl t s, skel (fst (infer_st zone tl t s)) = skel t.
+Proof. exact infer_st_skel. Qed.
+Print Assumptions infer_keeps_shape.
+
+(* nesting independence, for every type tree: two targets of the same shape get the same outcome from Infer and, when it
+   succeeds, end up as the same column - whatever parameters their leaves held before, at whatever depth *)
+Theorem adoption_independent_of_nesting : forall zone tl t1 t2 s, skel t1 = skel t2 ->
+  snd (infer_st zone tl t1 s) = snd (infer_st zone tl t2 s) /\
+  (snd (infer_st zone tl t1 s) = IOk -> fst (infer_st zone tl t1 s) = fst (infer_st zone tl t2 s)).
+Proof. exact infer_st_indep. Qed.
+Print Assumptions adoption_independent_of_nesting.
+
+Theorem adoption_function_of_shape_and_type : forall zone tl t1 t2 s t',
+  skel t1 = skel t2 -> infer_st zone tl t1 s = (t', IOk) -> infer_st zone tl t2 s = (t', IOk).
+Proof. exact infer_nesting_independent. Qed.
+Print Assumptions adoption_function_of_shape_and_type.
+
+(* a second bind re-adopts: after an earlier Infer with ANY string (accepted or rejected half way) the column answers a
+   new type exactly as the column first built would - nothing of the earlier type survives *)
+Theorem second_infer_readopts : forall zone tl t s1 s2 t2,
+  infer_st zone tl (fst (infer_st zone tl t s1)) s2 = (t2, IOk) <-> infer_st zone tl t s2 = (t2, IOk).
+Proof. exact second_infer_forgets_first. Qed.
+Print Assumptions second_infer_readopts.
+
+(* what is adopted: every leaf Infer reaches holds exactly the parameters spelled at its position in the server's type
+   ([adopted]: Enum - the piece as its type, the width of its base, the definitions parsed from it; DateTime - the zone
+   named there as time.LoadLocation reports it, or none; DateTime64 - precision and zone named there, or no zone;
+   Interval - the piece itself), the position being found the way the wrappers split the string *)
+Theorem infer_adopts_at_every_depth : forall zone tl t s t', infer_st zone tl t s = (t', IOk) -> adopted zone t' s.
+Proof. exact infer_adopts. Qed.
+Print Assumptions infer_adopts_at_every_depth.
+
+(* typed targets keep their shape through every sequence of blocks - bound, rejected, truncated, altered *)
+Theorem targets_keep_shape : forall zone tl auto b v blocks ts xs, ts <> [] -> shapes ts xs ->
+  Forall (fun ts' => shapes ts' xs) (map bo_targets (run_blocks zone tl auto b v ts blocks)).
+Proof. exact history_shapes. Qed.
+Print Assumptions targets_keep_shape.
+
+(* a successful bind does not depend on the parameters or the contents its targets held before *)
+Theorem bind_independent_of_old_parameters : forall zone tl b v nrows ts1 ts2 i s ts' rest,
+  Forall2 same_target ts1 ts2 ->
+  bind_targets zone tl b v nrows i ts1 s = (ts', BOk rest) -> bind_targets zone tl b v nrows i ts2 s = (ts', BOk rest).
+Proof. exact bind_targets_indep. Qed.
+Print Assumptions bind_independent_of_old_parameters.
+
+(* a block the library encodes binds exactly to every list of typed targets it [fits]: target i is a typed column of the
+   shape of column i (any parameters, any contents - rows of an earlier block, the residue of a failed decode) and its
+   name is blank or the column's *)
+Theorem fitting_block_binds_exactly : forall zone tl b b' v nrows cols ts bs rest,
+  nrows <= max_rows -> Forall (col_ok (infer_target zone tl) nrows) cols -> Forall2 fits cols ts ->
+  enc_cols b v nrows cols = Some bs ->
+  bind_result zone tl b' v (N.of_nat (length cols)) nrows ts (bs ++ rest) = (map typed_target cols, BOk rest).
+Proof. exact fitting_block_binds. Qed.
+Print Assumptions fitting_block_binds_exactly.
+
+(* the reset-before-decode rule.  After a failed bind - the block [s0] may be anything and may have failed at any column
+   for any reason, leaving that target half decoded - a well-formed block of the targets' shapes whose names meet the
+   names the targets have NOW binds, and every target then holds exactly its own column: name, type, contents *)
+Theorem failed_bind_then_bind_ok : forall zone tl auto b0 v0 ts s0 b b' v nrows cols bs rest,
+  Forall2 (fun c t => typed_as (skel (c_ty c)) t) cols ts ->
+  Forall2 (fun c t1 => rt_name t1 = [] \/ rt_name t1 = c_name c) cols (bo_targets (decode_block_st zone tl auto b0 v0 ts s0)) ->
+  nrows <= max_rows -> Forall (col_ok (infer_target zone tl) nrows) cols -> enc_cols b v nrows cols = Some bs ->
+  bind_result zone tl b' v (N.of_nat (length cols)) nrows (bo_targets (decode_block_st zone tl auto b0 v0 ts s0)) (bs ++ rest)
+  = (map typed_target cols, BOk rest).
+Proof. exact failed_bind_then_bind_ok_proof. Qed.
+Print Assumptions failed_bind_then_bind_ok.
+
+(* ... and so after any sequence of blocks against the same targets *)
+Theorem after_any_history_bind_ok : forall zone tl auto b0 v0 blocks ts tsN b b' v nrows cols bs rest,
+  Forall2 (fun c t => typed_as (skel (c_ty c)) t) cols ts -> ts <> [] ->
+  In tsN (map bo_targets (run_blocks zone tl auto b0 v0 ts blocks)) ->
+  Forall2 (fun c t1 => rt_name t1 = [] \/ rt_name t1 = c_name c) cols tsN ->
+  nrows <= max_rows -> Forall (col_ok (infer_target zone tl) nrows) cols -> enc_cols b v nrows cols = Some bs ->
+  bind_result zone tl b' v (N.of_nat (length cols)) nrows tsN (bs ++ rest) = (map typed_target cols, BOk rest).
+Proof. exact after_history_bind_ok. Qed.
+Print Assumptions after_any_history_bind_ok.
+
+(* the residue of a failed decode (model/DecPart.v, one case per DecodeColumn of /repo/proto, both builds) for the flat
+   column kinds: Rows() is at most the block's row count and Row(i) returns for every i below it *)
+Theorem failing_target_flat_consistent : forall b t n s, flat t = true ->
+  readableb t (dec_part b t n s) = true /\ rows t (dec_part b t n s) <= n.
+Proof. exact residue_flat_proof. Qed.
+Print Assumptions failing_target_flat_consistent.
+
+(* ... which does NOT hold below a wrapper (finding, not repaired: the library leaves a half-decoded Nullable / Array /
+   Map / Point / Tuple target with Rows() > 0 whose Row(i) panics); the general statement
+     forall b t n s, readableb t (dec_part b t n s) = true
+   is refuted by a Nullable(String) whose null map arrived and whose strings did not *)
+Theorem failing_target_consistent_refuted :
+  ~ (forall b t n s, readableb t (dec_part b t n s) = true).
+Proof. exact residue_unreadable_in_general. Qed.
+Print Assumptions failing_target_consistent_refuted.
+
+(* non-vacuity of the extension.
+   (1) Array(Map(String, Nullable(Array(Enum)))) [a nesting the model allows]: a target built with other definitions four
+       levels down adopts the server's two-name Enum (a comma inside the Map's value type), a second type re-adopts and
+       equals what a blank target gives.
+   (2) a two-column block cut inside its second column: column 0 bound, column 1 half decoded (default build: all rows
+       exist, what arrived is in place, the rest zero; pure-Go build: nothing), then the intact block binds exactly. *)
+Local Open Scope string_scope.
+Definition ex_enum (defs : list (string * Z)) (nm : string) : ty :=
+  TEnum (s2b nm) 1 (map (fun d => (s2b (fst d), snd d)) defs).
+Definition ex_nest (leaf : ty) : ty := TArr (TMap TStr (TNullable (TArr leaf))).
+Example c18x_nested_adoption :
+  let blank := ex_nest (TEnum [] 2 []) in
+  let old := ex_nest (ex_enum [("x", 5%Z)] "Enum8('x' = 5)") in
+  let s1 := s2b "Array(Map(String, Nullable(Array(Enum8('a' = 1, 'b' = 2)))))" in
+  let s2 := s2b "Array(Map(String, Nullable(Array(Enum16('b' = 300)))))" in
+  infer_st ex_zone (fun x => x) old s1 = (ex_nest (ex_enum [("a", 1%Z); ("b", 2%Z)] "Enum8('a' = 1, 'b' = 2)"), IOk) /\
+  infer_st ex_zone (fun x => x) blank s1 = infer_st ex_zone (fun x => x) old s1 /\
+  infer_st ex_zone (fun x => x) (fst (infer_st ex_zone (fun x => x) old s1)) s2
+    = (ex_nest (TEnum (s2b "Enum16('b' = 300)") 2 [(s2b "b", 300%Z)]), IOk) /\
+  infer_st ex_zone (fun x => x) (fst (infer_st ex_zone (fun x => x) old s1)) s2 = infer_st ex_zone (fun x => x) blank s2 /\
+  skel old = skel blank.
+Proof. vm_compute. repeat split. Qed.
+
+Definition ex2_cols : list Block.col :=
+  [ {| c_name := s2b "a" ; c_ty := TStr ; c_data := DBytes [s2b "p"; s2b "q"] |} ;
+    {| c_name := s2b "b" ; c_ty := TFix (s2b "UInt32") 4 ; c_data := DFix [7; 258] |} ].
+Definition ex2_targets : list rtarget :=
+  [ {| rt_name := [] ; rt_col := CTyped TStr (DBytes [s2b "old"]) |} ;
+    {| rt_name := s2b "b" ; rt_col := CTyped (TFix (s2b "UInt32") 4) (DFix [9; 9; 9]) |} ].
+Definition ex2_run (bld : build) :=
+  match encode_block Unsafe 54460 blank_block_info 2 ex2_cols with
+  | Some bs =>
+    let cut := firstn (length bs - 3) bs in
+    let o1 := decode_block_st ex_zone (fun x => x) false bld 54460 ex2_targets cut in
+    let o2 := decode_block_st ex_zone (fun x => x) false bld 54460 (bo_targets o1) bs in
+    Some (ex_view (Some o1), ex_view (Some o2))
+  | None => None
+  end.
+Example c18x_failed_then_ok :
+  ex2_run Unsafe =
+    Some (Some (BFail 1 FDecode EEof, [("a", "String", Some (DBytes [s2b "p"; s2b "q"])); ("b", "UInt32", Some (DFix [7; 2]))]),
+          Some (BOk [], [("a", "String", Some (DBytes [s2b "p"; s2b "q"])); ("b", "UInt32", Some (DFix [7; 258]))])) /\
+  ex2_run Safe =
+    Some (Some (BFail 1 FDecode EEof, [("a", "String", Some (DBytes [s2b "p"; s2b "q"])); ("b", "UInt32", Some (DFix []))]),
+          Some (BOk [], [("a", "String", Some (DBytes [s2b "p"; s2b "q"])); ("b", "UInt32", Some (DFix [7; 258]))])).
 Proof. vm_compute. repeat split. Qed.
